@@ -864,7 +864,8 @@ theorem async_second_pass_handler_of_current_table (cfg : Server.Cfg) (tbl' : Ta
 
 /-- … in particular: the resource was deleted in between (no resource of the current table has the stored Uri-Path):
 no handler of an ordinary resource runs — the stored request goes to the unknown-resource handler if the current table
-has one for the method, else it is answered 4.04 (2.02 for DELETE) / by `.well-known/core` like a received request -/
+has one for the method, else it is answered 4.04 (2.02 for DELETE) / by `.well-known/core` like a received request
+(as a separate response: Confirmable for a Confirmable request, see `async_second_pass_error_is_separate_response`) -/
 theorem async_deleted_resource_handler_never_runs (cfg : Server.Cfg) (tbl' : Table) (m : Msg) (v : Verdict) (call : Call)
     (hprx : hasOpt m.opts 35 = false ∧ hasOpt m.opts 39 = false) (h6 : hasOpt m.opts 6 = false)
     (hdel : ∀ r ∈ tbl'.res, r.path ≠ M.uriPath m.opts)
@@ -878,6 +879,63 @@ theorem async_deleted_resource_handler_never_runs (cfg : Server.Cfg) (tbl' : Tab
     exact absurd hp (hdel r (List.mem_of_getElem? hr))
   | unk => rw [hw] at this; exact ⟨rfl, this⟩
   | prx => rw [hw] at this; exact absurd this id
+
+/-- an error response of the second pass (only possible when the table changed in between) is a separate response too:
+never an ACK — its message id is the stored copy's, which acknowledges nothing the client sent -/
+theorem async_second_pass_error_is_separate_response (cfg : Server.Cfg) (rq : Request) (os : Opts) (resp : Nat)
+    (res : Option Nat) : ∀ r ∈ (failResponseD cfg rq os resp res).replies, r.type ≠ ACK := by
+  have key : ∀ x : Reply, x.type ≠ ACK → (M.noResponse cfg rq res x).2.type ≠ ACK := by
+    intro x hx
+    unfold M.noResponse
+    dsimp only
+    repeat' split
+    all_goals first | exact hx | (rename_i h; exact absurd h hx)
+  have h2 : ∀ x : Reply, x.type ≠ ACK → (ackStrip (stripObserve false x)).type ≠ ACK := by
+    intro x hx
+    have : stripObserve false x = x := by simp [stripObserve]
+    rw [this]
+    unfold ackStrip
+    rw [if_neg (fun h => hx h.1)]
+    exact hx
+  have h4 : ∀ x : Reply, x.type ≠ ACK → (M.sendFix rq.mcast x).type ≠ ACK := by
+    intro x hx
+    unfold M.sendFix
+    split
+    · exact hx
+    · exact hx
+  have h0 : (if (M.errReply rq.msg os resp M.Filter.empty).type = ACK then
+      { M.errReply rq.msg os resp M.Filter.empty with type := CON } else M.errReply rq.msg os resp M.Filter.empty).type ≠ ACK := by
+    split
+    · show CON ≠ ACK
+      decide
+    · assumption
+  intro r hr
+  unfold failResponseD M.deliver M.post at hr
+  dsimp only at hr
+  by_cases hd : (M.noResponse cfg rq res (if (M.errReply rq.msg os resp M.Filter.empty).type = ACK then
+      { M.errReply rq.msg os resp M.Filter.empty with type := CON } else M.errReply rq.msg os resp M.Filter.empty)).1 = .drop
+  · rw [if_pos hd] at hr; simp at hr
+  · rw [if_neg hd, List.mem_singleton] at hr
+    rw [hr]
+    split
+    · exact h4 _ (h2 _ (key _ h0))
+    · exact h2 _ (key _ h0)
+
+/-- the machine with a changing table (`stepT`): the balance is untouched by coap_delete_resource, and whatever the
+events before (deletions included) a delayed invocation is decided by the table as it is at that moment — so
+`async_second_pass_handler_of_current_table` / `async_deleted_resource_handler_never_runs` apply to everything that
+fires with `tbl' := x.tbl` -/
+theorem async_changing_table (c : Async.Cfg) (cfg : Server.Cfg) (x : StT) (ev : EvT) (hb : L.Bal x.st) :
+    L.Bal (stepT c cfg x ev).1.st ∧
+    (∀ f ∈ (stepT c cfg x ev).2.fired, ∃ v, f.out = (serverDec cfg x.tbl).again f.entry.req v) ∧
+    (∀ k, ev = .delRes k → (stepT c cfg x ev).1.st = x.st ∧ (stepT c cfg x ev).2.fired = []) := by
+  cases ev with
+  | ev e =>
+    refine ⟨(L.step_bal c _ x.st e hb).1, ?_, by intro k hk; cases hk⟩
+    intro f hf
+    exact ⟨_, (async_fired_were_registered c (serverDec cfg x.tbl) x.st e f hf).2.2.2⟩
+  | delRes k =>
+    exact ⟨hb, by intro f hf; simp [stepT] at hf, fun _ _ => ⟨rfl, rfl⟩⟩
 
 /-- the machine: the entry a deferring datagram registered, when it is handed over under the unchanged table, reaches
 the handler call the datagram itself reached -/
@@ -944,7 +1002,7 @@ def exTblDelUnk : Table := ⟨some ⟨1, 0⟩, none, []⟩
 example : (∀ r ∈ exTblDel.res, r.path ≠ M.uriPath exStored.opts) ∧
     (((serverDec exCfg exTblDel).again exStored ⟨69, [104, 105]⟩).call = none) ∧
     (((serverDec exCfg exTblDel).again exStored ⟨69, [104, 105]⟩).replies.map (fun r => (r.type, r.code, r.mid))) =
-      [(ACK, 132, 32897)] := by decide
+      [(CON, 132, 32897)] := by decide
 example : (∀ r ∈ exTblDelUnk.res, r.path ≠ M.uriPath exStored.opts) ∧
     (((serverDec exCfg exTblDelUnk).again exStored ⟨69, [104, 105]⟩).call.map (·.who)) = some .unk := by decide
 example : (rxOwn exACfg (serverDec exCfg exTbl) (St.init exACfg) 1 (some 500) exHop).1.2.map (·.req) = some exStored := by
